@@ -128,15 +128,65 @@ type fakeSyncAcl struct {
 func (f fakeSyncAcl) Id() string              { return f.l.Id() }
 func (f fakeSyncAcl) Head() *list.AclRecord   { return f.l.Head() }
 
-// treeMgr is the tree manager double: DeleteTree builds the real sync tree and deletes it, MarkTreeDeleted is a
-// no-op; both count calls, fail for the ids in fail and cancel the worker context after k calls.
+// treeMgr is the tree manager double.  DeleteTree does what the tree managers of the applications (and the
+// repository's own testTreeManager) do: take the sync tree from the tree CACHE - building the real sync tree with
+// BuildSyncTreeOrGetRemote and caching it on a miss -, call its Delete, and drop it from the cache when that succeeded;
+// a tree whose Delete failed stays cached, so the worker's retry reaches the SAME sync tree instance.  The cache lives
+// as long as the components (a restart starts with an empty one).  MarkTreeDeleted is a no-op.  Both count calls, fail
+// for the ids in fail and cancel the worker context after k calls.  Storage faults: the tree storages handed to the
+// sync trees built here are wrapped (faultSpace / faultStorage); objecttree.Storage.Delete of an id in sfail fails with
+// a transient error without touching the store, every time it is tried while the id is in sfail (= during that run).
 type treeMgr struct {
 	w      *World
 	calls  int
 	k      int
 	fail   map[string]bool
+	sfail  map[string]bool
 	cancel context.CancelFunc
 	log    []string
+	cache  map[string]synctree.SyncTree
+	// bookkeeping for the statistics: storage-delete faults that fired in the current run, ids with an earlier fault,
+	// DeleteTree calls of the current run for an id with an earlier fault (retries) / that found the tree cached
+	faultHits int
+	faulted   map[string]bool
+	retries   int
+	cacheHits int
+}
+
+var errStorageFault = errors.New("verif: injected transient storage error (tree storage Delete)")
+
+// faultSpace is the space storage handed to the sync trees the tree manager builds: the real one, its tree storages
+// wrapped in faultStorage.
+type faultSpace struct {
+	spacestorage.SpaceStorage
+	t *treeMgr
+}
+
+func (s *faultSpace) TreeStorage(c context.Context, id string) (objecttree.Storage, error) {
+	st, err := s.SpaceStorage.TreeStorage(c, id)
+	if err != nil {
+		return st, err
+	}
+	return &faultStorage{Storage: st, id: id, t: s.t}, nil
+}
+
+type faultStorage struct {
+	objecttree.Storage
+	id string
+	t  *treeMgr
+}
+
+func (s *faultStorage) Delete(c context.Context) error {
+	if s.t.sfail[s.id] {
+		s.t.faultHits++
+		if s.t.faulted == nil {
+			s.t.faulted = map[string]bool{}
+		}
+		s.t.faulted[s.id] = true
+		s.t.log = append(s.t.log, "sfault:"+s.id)
+		return errStorageFault
+	}
+	return s.Storage.Delete(c)
 }
 
 func (t *treeMgr) Init(a *app.App) error            { return nil }
@@ -169,11 +219,30 @@ func (t *treeMgr) DeleteTree(_ context.Context, spaceId, treeId string) error {
 	if t.fail[treeId] {
 		return errors.New("tree manager failure")
 	}
-	tr, err := synctree.BuildSyncTreeOrGetRemote(ctx, treeId, t.w.deps(nil))
-	if err != nil {
+	if t.faulted[treeId] && !t.sfail[treeId] {
+		t.retries++
+	}
+	tr, cached := t.cache[treeId]
+	if cached {
+		t.cacheHits++
+	} else {
+		deps := t.w.deps(nil)
+		deps.SpaceStorage = &faultSpace{SpaceStorage: t.w.sp, t: t}
+		var err error
+		tr, err = synctree.BuildSyncTreeOrGetRemote(ctx, treeId, deps)
+		if err != nil {
+			return err
+		}
+		if t.cache == nil {
+			t.cache = map[string]synctree.SyncTree{}
+		}
+		t.cache[treeId] = tr
+	}
+	if err := tr.Delete(); err != nil {
 		return err
 	}
-	return tr.Delete()
+	delete(t.cache, treeId)
+	return nil
 }
 
 // remote is the sync client double: SendTreeRequest plays the remote peer.
@@ -568,14 +637,24 @@ func (w *World) updateState() {
 }
 
 // Worker runs deleter.Delete once; the context is cancelled after k tree-manager calls (k < 0: never).
-func (w *World) Worker(k int, fail []string) (order []string) {
+func (w *World) Worker(k int, fail []string) (order []string) { return w.WorkerFaults(k, fail, nil) }
+
+// WorkerFaults: the same with transient storage errors - for the ids in sfail every objecttree.Storage.Delete tried
+// during this run fails (without touching the store); the faults are gone when the run is over.
+func (w *World) WorkerFaults(k int, fail, sfail []string) (order []string) {
 	c, cancel := context.WithCancel(ctx)
 	defer cancel()
 	w.tm.calls, w.tm.k, w.tm.cancel = 0, k, cancel
+	w.tm.faultHits, w.tm.retries, w.tm.cacheHits = 0, 0, 0
 	w.tm.fail = map[string]bool{}
 	for _, id := range fail {
 		w.tm.fail[id] = true
 	}
+	w.tm.sfail = map[string]bool{}
+	for _, id := range sfail {
+		w.tm.sfail[id] = true
+	}
+	defer func() { w.tm.sfail = nil }()
 	if k == 0 {
 		cancel()
 	}
